@@ -3,6 +3,7 @@ import SlipVerif.Lemmas.PrinterPretty
 import SlipVerif.Lemmas.PrinterPrettyRead
 import SlipVerif.Lemmas.PrinterReadBase
 import SlipVerif.Lemmas.Wire6
+import SlipVerif.Lemmas.PrinterReadBaseStruct
 /-
   C03 — printing then reading gives back an equal object of the same type; pretty printing changes
   only white space.
@@ -243,6 +244,47 @@ theorem print_read_config_independent (hT : TablesOK) (c1 c2 : PCfg) (h1 : CfgOK
   obtain ⟨y1, r1, e1, t1⟩ := print_read_same_type hT c1 h1 x hwf
   obtain ⟨y2, r2, e2, t2⟩ := print_read_same_type hT c2 h2 x hwf
   exact ⟨y1, y2, r1, r2, e1, e2, by rw [t1, t2]⟩
+
+/-- structure_roundtrip_readbase: the structural induction for text WITHOUT radix marks read with
+    `*read-base*` bound to `*print-base*` (`CfgRB`: base 2..36, `*print-radix*` off, readably, array): any
+    nesting of lists, dotted lists, vectors and arrays over well-formed leaves whose integer leaves do not
+    spell `t` / `nil` in that base (`LeavesOK (NoSpell base)`, see `int_readbase_exceptions`) reads back —
+    integers and ratios through the digit patterns of the base, symbols because the printer bars every name
+    that is a number of base 10 or of the print base, floats because the exponent sign keeps the token out
+    of the integer pattern of every base (also where `d`, `s`, `l`, `e` are digits). -/
+theorem structure_roundtrip_readbase (hT : TablesOK) (cfg : PCfg) (hC : CfgRB cfg) (x : Obj) (hwf : WF x)
+    (hns : LeavesOK (NoSpell cfg.base) x) :
+    (∀ (rest : List Char) (fuel : Nat), termOrEnd rest = true → 3 * osize x + 4 ≤ fuel →
+      read1 cfg.base fuel (printFlat cfg x ++ rest) = .ok (recase cfg.case x, rest)) ∧
+    (∀ (rest : List Char) (fuel : Nat) (acc : List Obj), 3 * osize x + 6 ≤ fuel →
+      readElems cfg.base fuel (printTail cfg x ++ rest) acc = .ok (acc.reverse ++ tailElems (recase cfg.case x), rest)) :=
+  ⟨(struct_roundtrip_readbase hT cfg hC x).1 hwf hns, (struct_roundtrip_readbase hT cfg hC x).2 hwf hns⟩
+
+/-- print_read_roundtrip_readbase: the composite round trip for the second readable family of the grid —
+    `*print-radix*` off, any `*print-base*` 2..36, the text read with `*read-base*` = `*print-base*`: exactly
+    one object, equal to the original, of the same type. -/
+theorem print_read_roundtrip_readbase (hT : TablesOK) (cfg : PCfg) (hC : CfgRB cfg) (x : Obj) (hwf : WF x)
+    (hns : LeavesOK (NoSpell cfg.base) x) :
+    ∃ y, readAll cfg.base (printFlat cfg x) = .ok y ∧ objEq x y = true ∧ typeOf y = typeOf x := by
+  refine ⟨recase cfg.case x, ?_, objEq_recase cfg.case x, (equal_same_type x _ (objEq_recase cfg.case x)).symm⟩
+  have hlen := (size_le_length_arr hT cfg hC.array x).1 hwf
+  have h := (struct_roundtrip_readbase hT cfg hC x).1 hwf hns [] (3 * (printFlat cfg x).length + 4) rfl (by omega)
+  rw [List.append_nil] at h
+  unfold readAll
+  rw [h]
+  rfl
+
+example : CfgRB { base := 16, radix := false, case := .up, readably := true, array := true } :=
+  ⟨by decide, by decide, rfl, rfl, rfl⟩
+example : LeavesOK (NoSpell 16) (.cons (.int 255) (.cons (.sym "face".toList) (.ratio 10 17))) := by
+  simp [LeavesOK, NoSpell]
+  decide
+example : printFlat { base := 16, radix := false } (.cons (.int 255) (.cons (.sym "face".toList) (.ratio 10 17))) =
+    "(ff |face| . a/11)".toList := by decide
+-- the side condition is needed: 29 in base 36 is the token t
+example : ¬ LeavesOK (NoSpell 36) (.cons (.int 29) .nil) := by
+  simp [LeavesOK, NoSpell]
+  decide
 
 -- a non-trivial instance of the hypotheses
 example : CfgOK { base := 16, radix := true, case := .cap, readably := true, array := true } :=
